@@ -1,4 +1,40 @@
+(* C18 — Stateless API: no history, aliasing or thread interference. *)
 From Coq Require Import ZArith List Bool.
-From PW Require Import Model.Base.
-Theorem C18_placeholder : True. Proof. exact I. Qed.
-Print Assumptions C18_placeholder.
+From PW Require Import Model.Base Model.Oracles Model.CredJson Model.VerifyAuth Model.VerifyReg Model.Heap Proofs.HeapProofs.
+Import ListNotations.
+Open Scope nat_scope.
+
+(* verification never modifies the lists it was passed: every object that existed before the call is unchanged
+   (the root list handed to format verifiers, to which they append the built-in roots, is a fresh object) *)
+Theorem C18_frame : forall h caller builtin a, a < length h ->
+  h_get (fst (verify_roots h caller builtin)) a = h_get h a.
+Proof. exact verify_roots_frame. Qed.
+Print Assumptions C18_frame.
+
+Theorem C18_anchor_list_contents : forall h caller builtin,
+  match caller with Some c => c < length h | None => True end ->
+  h_get (fst (verify_roots h caller builtin)) (snd (verify_roots h caller builtin)) =
+    match caller with Some c => h_get h c | None => [] end ++ builtin /\
+  snd (verify_roots h caller builtin) = length h.
+Proof. exact verify_roots_contents. Qed.
+Print Assumptions C18_anchor_list_contents.
+
+(* for EVERY history of generate calls and in-place mutations of the objects handed back earlier, every call
+   without an algorithm list returns exactly the default parameters (induction over the history) *)
+Theorem C18_history_free : forall params algs ops,
+  Forall (fun out => out = algs) (s_outputs (fold_left step ops (init params algs))).
+Proof. exact history_free. Qed.
+Print Assumptions C18_history_free.
+
+(* the verifiers of the model are functions: the outcome of a call is determined by its arguments, oracles and clock -
+   stated so that it cannot silently change: equal arguments give equal outcomes at any point of any history *)
+Theorem C18_verifiers_are_functions : forall O P c O' P' c', O = O' -> P = P' -> c = c' ->
+  verify_auth O P c = verify_auth O' P' c'.
+Proof. intros; subst; reflexivity. Qed.
+Print Assumptions C18_verifiers_are_functions.
+
+(* the repaired defect, as a refutation of history-freedom for the aliasing variant: [generate; clear result; generate] *)
+Theorem C18_aliasing_refuted :
+  s_outputs (fold_left step_aliasing [OGen; OMutate 0 []; OGen] (init [7; 8]%Z [7; 8]%Z)) = [[7; 8]%Z; []].
+Proof. exact aliasing_is_history_dependent. Qed.
+Print Assumptions C18_aliasing_refuted.
